@@ -103,9 +103,14 @@ StarUniversesOf(tier) ==
     IF tier = "quick" THEN {Star1(b) : b \in BasesQuick} \cup {CpvVersioned}
     ELSE {Star2(b) : b \in BasesThorough(tier)} \cup {CpvVersioned}
 UniversesOf(tier) == StarUniversesOf(tier) \cup NameUniverses
-\* the reference model treats names as codes, so its laws are evaluated on the stars and on
-\* two of the name universes only; the code is observed on all of them
-LawUniversesOf(tier) == StarUniversesOf(tier) \cup {AtomNames, AtomNamesSlot}
+\* the reference model treats names as codes and all bases alike, so its laws are evaluated on
+\* a part of the universes (thorough: the two-attribute stars of the quick bases and the
+\* one-attribute stars of a third of the thorough bases); the code is observed on all of them
+LawUniversesOf(tier) ==
+    (IF tier = "quick" THEN StarUniversesOf(tier)
+     ELSE {Star2(b) : b \in BasesQuick} \cup {CpvVersioned}
+          \cup {Star1(b) : b \in {t \in BasesThorough(tier) : t.use = 0 /\ t.blocks # 1}})
+    \cup {AtomNames, AtomNamesSlot}
 
 (* ---- small groups for the container state machine ---- *)
 GroupCpv   == {CpvV(1, 1, v) : v \in {V10, Ver(<<<<1>>, <<0, 0>>>>, <<>>, <<>>), Ver(<<<<1>>, <<0>>>>, <<>>, <<0>>),
